@@ -263,6 +263,43 @@ def toCls (s : TOState) : Cls :=
 
 def toParams (s : TOState) : List Data := s.userEstimator
 
+/-! ### ThresholdOptimizer with `prefit=True` (_threshold_optimizer.py:317-327)
+
+The user passes an estimator object that is already fitted; `fit` only checks it (`check_is_fitted`, a warning if
+not), aliases it (`self.estimator_ = self.estimator`) and computes the thresholds from its scores.  It must never
+call `fit` on the user's object.  `clone` clones the nested estimator, which drops its fitted state. -/
+
+structure TOPreState where
+  user : List Data                   -- fit history of the object passed as `estimator` ([] = unfitted)
+  estimatorSet : Bool                -- `estimator_` exists (set before the scores are computed)
+  fitted : Option (List Data × Data) -- (history of `estimator_` when the thresholds were computed, data used)
+deriving DecidableEq, Repr
+
+def toPreInit (h0 : List Data) : TOPreState := ⟨h0, false, none⟩
+
+/-- `refits = false` is the code; `true` is the hypothetical "fit the user's object although prefit=True". -/
+def toPreStep (refits : Bool) (s : TOPreState) : Op → TOPreState × Res
+  | .fit d =>
+    if refits then (⟨s.user ++ [d], true, some (s.user ++ [d], d)⟩, .retSelf)
+    else if s.user.isEmpty then
+      -- unfitted base learner: `_get_soft_predictions` fails after `estimator_` has been set
+      ({ s with estimatorSet := true, fitted := none }, .raised .attribute)
+    else (⟨s.user, true, some (s.user, d)⟩, .retSelf)
+  | .predict _ =>
+    (s, match s.fitted with
+      | some _ => .ok
+      | none => if s.estimatorSet then .raised .attribute else .raised .notFitted)
+  | .pickle => (s, .ok)
+  | .clone => (⟨[], false, none⟩, .ok)
+
+def TOPre (refits : Bool) (h0 : List Data) : Machine TOPreState := ⟨toPreInit h0, toPreStep refits⟩
+
+/-- fresh twin = a new ThresholdOptimizer(prefit=True) around the same, untouched fitted object (history `h0`) -/
+def toPreCls (h0 : List Data) (s : TOPreState) : Cls :=
+  match s.fitted with
+  | none => if s.estimatorSet then .broken .attribute else .unfitted
+  | some (h, d) => if h = h0 then .fresh d else .other
+
 /-! ### CorrelationRemover -/
 
 structure CRState where
@@ -385,6 +422,10 @@ def changedCol {σ π : Type} [DecidableEq π] (M : Machine σ) (params : σ →
   let befores := M.init :: states
   (befores.zip states).map (fun (a, b) => if params a = params b then "-" else name)
 
+/-- keep a changed-parameter entry only at `fit` operations (a clone is another object, not a change of this one) -/
+def onlyAtFit (ops : List Op) (cs : List String) : List String :=
+  (ops.zip cs).map (fun (o, c) => match o with | .fit _ => c | _ => "-")
+
 /-- `lifecycle.run <machine> <rule bits> <config bits> <widths> <ops>`
     machine ∈ spec|to|cr|gs|eg|adv; rule bits (0 = today's rule, 1 = repaired; moment: 0 latched, 1 copy per
     fit, 2 re-entrant): gs = ret,moment; eg = moment,nu; cr = width; adv = setup;
@@ -401,6 +442,13 @@ def handle (toks : List String) : Option String :=
     | "to", ['-'], [c] => do
       let c ← parseFlag c
       pure (fmtView ((TO c).view toCls ops) (changedCol (TO c) toParams "estimator" ops))
+    | "topre", ['-'], [c] => do
+      -- config bit: 1 = the code (alias, no refit), 0 = hypothetical refit of the user's object; the user's estimator
+      -- was fitted once on a data set of its own (id 9)
+      let c ← parseFlag c
+      let h0 : List Data := [⟨9, 3⟩]
+      pure (fmtView ((TOPre (!c) h0).view (toPreCls h0) ops)
+        (onlyAtFit ops (changedCol (TOPre (!c) h0) (fun s => s.user) "estimator(refitted)" ops)))
     | "cr", [r], ['-'] => do
       let r ← parseRule r
       pure (fmtView ((CR r).view crCls ops) (ops.map (fun _ => "-")))
